@@ -153,7 +153,7 @@ def run(tier, seed):
     total = engine.run_parts('C07', PARTS, tier, seed)
     total.violations = viol + total.violations
     # merge the RA model statistics into the evidence written by run_parts
-    p = os.path.join(core.VERIF, 'evidence', 'C07.json')
+    p = os.path.join(core.EVIDENCE_DIR, 'C07.json')
     ev = json.load(open(p))
     ev['coverage']['states'] = ev['coverage'].get('states', 0) + st
     ev['coverage']['transitions'] = ev['coverage'].get('transitions', 0) + tr
